@@ -180,6 +180,15 @@ class QGrammar:
                 if b % 2:
                     P.op(env.ctx, "work", a=(c % 8) * 20)
                 P.op(env.ctx, "resume", a=q, b=t, c=1, q=q, thread=env.thread)
+                # a storm: further back-to-back balanced pairs from the same context (round-4 seed C06d: the last resume has to land in the few
+                # instructions before a lock owner's unlock); each pair is the tight pair above again, so nothing new has to be proved sound
+                if (c >> 3) % 3 == 0 and P.next_tok < 3000:
+                    n = [3, 8, 20][(c >> 5) % 3]
+                    for _ in range(n):
+                        t2 = P.tok()
+                        P.op(env.ctx, "suspend", a=q, b=t2, q=q, thread=env.thread, in_item=env.in_item, onq=env.onq, item_kind=env.item_kind)
+                        P.op(env.ctx, "resume", a=q, b=t2, c=1, q=q, thread=env.thread)
+                    P.features.add("suspend-resume-storm")
             return o
         if kind == "self_suspend":
             # dispatch_suspend from an item running on the serial queue itself (or from a barrier item on a concurrent queue)
